@@ -111,6 +111,14 @@ def main(chk):
         iters = rng.choice([1, 2, 50])
         zeros = zero_spec(rng, prob) if rng.random() < (0.4 if prob['ms'] else 0.7) else {}
         known = rng.choice([None, float(prob['N'])])
+        if it % 10 == 5 and prob['ms']:
+            # near-exact answers of a tiny population: the Armijo line search of mirror descent cannot find an acceptable step within its
+            # 25 halvings; whatever the solver then keeps, parameters and marginals must still describe ONE distribution
+            engine = 'MD'; iters = rng.choice([1, 1, 3]); known = 1.0
+            for m in prob['ms']:
+                m['sigma'] = rng.choice([1e-5, 1e-6])
+                m['y'] = m['Q'] @ (m['mv'] / max(1e-12, float(np.sum(m['mv']))))
+            chk.count('directed.near-exact-answers')
         info = dict(infgen.describe(prob), engine=engine, iters=iters, structural_zeros={''.join(k): v for k, v in zeros.items()}, total=known)
         chk.count('engine.' + engine); chk.count('iters=%d' % iters); chk.count('zeros' if zeros else 'nozeros'); chk.count('measurements=%d' % len(prob['ms']))
         try:
@@ -127,12 +135,12 @@ def main(chk):
             chk.count('early_exit')
         check_model(chk, model, info, rng, lines, pend)
     judge(chk, lines, pend)
-    return chk.finish(rule='random problems (2-4 attributes, 0-5 measurements: overlapping / nested / permuted / cyclic projections, identity/dense/prefix/wide queries, noise .1-10) x solvers MD/RDA/IG x '
+    return chk.finish(rule='random problems (2-4 attributes, 0-5 measurements: overlapping / nested / permuted / cyclic projections, identity/dense/prefix/wide queries, noise .1-10, plus near-exact answers 1e-5..1e-6 of a unit population) x solvers MD/RDA/IG x '
                       'iteration counts {1,2,50} x structural zeros on/off x known/estimated total, incl. empty measurement lists (early exits). For every returned model: stored clique marginals, 3 random '
                       'project answers (any order, in and out of clique) and the data vector vs the exact joint marginals computed by the extracted model from exp(stored potentials); finiteness, sign, sum. '
                       'Non-trivial = model with >=2 cliques.',
-                      assumptions=['exp() of the stored float potentials is converted to exact rationals (clique-wise shifted by the max, which the marginals are invariant to)',
-                                   'mle_reproduces (BP(mle(mu)) = mu on a junction tree) is NOT proved; it is what this correspondence observes for RDA/IG'])
+                      assumptions=['exp() of the stored float potentials is converted to exact rationals (clique-wise shifted by the largest jointly feasible parameter, which the marginals are invariant to)',
+                                   'mle_reproduces is a theorem (C08_mle_reproduces); that mle\'s running separator is the tree separator is what this correspondence observes for RDA/IG'])
 
 
 def replay(chk, rp):
